@@ -279,3 +279,36 @@ theorem poolH_sel (hle : TotalOrderB le) (dice : List (Hist α)) (hd : DiceOK le
         exact ⟨_, rfl, hvia⟩
 
 end Dyce
+
+namespace Dyce
+open List
+
+variable {α : Type} [DecidableEq α] [AddCommMonoid α] {le : α → α → Bool}
+
+theorem sumRoll_eq_sum_getD (l : List (Option α)) :
+    sumRoll (0 : α) (· + ·) l = (l.map fun o => o.getD 0).sum := by
+  have key : ∀ (acc : α), l.foldl (fun acc o => match o with | some x => acc + x | none => acc) acc
+      = acc + (l.map fun o => o.getD 0).sum := by
+    induction l with
+    | nil => intro acc; simp
+    | cons o l ih =>
+      intro acc
+      rw [List.foldl_cons, ih, List.map_cons, List.sum_cons]
+      cases o with
+      | none => simp
+      | some x => simp [add_assoc]
+  unfold sumRoll
+  have := key 0
+  rw [zero_add] at this
+  exact this
+
+/-- the sum of the selected positions does not depend on the order in which they are listed -/
+theorem selSum_perm (t : List α) {idxs₁ idxs₂ : List Nat} (hp : idxs₁ ~ idxs₂) :
+    selSum le 0 (· + ·) idxs₁ t = selSum le 0 (· + ·) idxs₂ t := by
+  unfold selSum
+  rw [sumRoll_eq_sum_getD, sumRoll_eq_sum_getD]
+  unfold takeIdxs
+  rw [List.map_map, List.map_map]
+  exact (hp.map _).sum_eq
+
+end Dyce
